@@ -3,7 +3,7 @@
 import json, os
 HERE = os.path.dirname(os.path.dirname(os.path.abspath(__file__)))
 
-TECH = "contract-based deductive verification of the real code: Verus (Z3) discharges requires/ensures/loop invariants spliced into functions extracted mechanically from /repo on every run; layer-2 lemmas over the contracts; vacuity canary pass"
+TECH = "contract-based deductive verification of the real code: Verus (Z3) discharges requires/ensures/loop invariants spliced into functions extracted mechanically from /repo on every run; layer-2 history lemmas over the contracts; vacuity canary pass; labelled bounded stand-ins (searches on the real crate against property-level oracles) only for the async glue no contract reaches"
 
 CLAIMS = {
  "C01": ("proof of the sequential core (scoped)",
@@ -35,16 +35,16 @@ CLAIMS = {
          "NOT covered: order of effects across the two actors, liveness of the Weak<Topic>, the deleted-topic sentinel string (to_string of an upgraded weak reference), re-creation not re-attaching (call-graph fact)."),
  "C13": ("proof with trusted seams",
          "Proved: Paging::new normalises the size (0 -> 20, > 1000 -> 1000), next offset = offset + page length and none for an empty page, negative size is INVALID_ARGUMENT, an issued token decodes to its offset, anything else is INVALID_ARGUMENT or some offset; walk lemma (unbounded list length): following offsets from the first page yields the list exactly once in order with pages <= size, and a hostile offset yields a valid (possibly empty) page.",
-         "Assumed contracts (listed in trusted_base): PageToken::encode/try_decode (base64 + to_ne_bytes; Verus cannot specify const-generic array lengths), the filter/sort/skip/take bodies of the three list functions (iterator adapter `cloned` has no vstd spec) — only their pagination tail is under contract; creation order = order of internal ids (C10)."),
+         "Assumed contracts (listed in trusted_base): PageToken::encode/try_decode (base64 + to_ne_bytes; Verus cannot specify const-generic array lengths), <[T]>::sort_unstable. The sort + skip/take/collect tails of list_topics and list_subscriptions_in_project are under contract (window == page_items); their filter/collect heads and the window of TopicActor::list_subscriptions use the `cloned` adapter (no vstd spec) and are covered by the bounded stand-ins only; creation order = order of internal ids (C10)."),
  "C15": ("proof for the size bound (scoped for emptiness)",
          "Proved: |pull result| = pull_count(backlog, max) <= max(cap, 1) with cap <= max_count, including the `usize as u16` truncation of the backlog length (bit-vector lemma); conversion lemma over all i32 m >= 1: the batch never exceeds m even where `m as u16` wraps; streaming limit: try_into::<u16> rejects out-of-range values with INVALID_ARGUMENT; pull returns empty iff the backlog is empty.",
          "NOT covered: the unary wait loop / 5-minute timer (select!); the `as u16` cast site itself sits inside an async block (the lemma covers its arithmetic)."),
  "C17": ("proof per parser (scoped)",
          "Proved: every parser under contract is total and panic-free (no unwrap, slicing through checked get, all integer arithmetic overflow-checked), returns INVALID_ARGUMENT exactly on the malformed class; streaming control-message validation rejects inconsistent messages before any subscription call.",
          "NOT covered: 'changes no state / connection survives' at RPC level, panics inside tonic/prost; parse_push_config and parse_project_id are not under contract; AckId::parse is an assumed contract over str::parse::<u64>."),
- "C18": ("proof (soundness direction)",
-         "Proved on the byte view of &str (after fix 0473433): try_parse(s) = Some(n) implies s = \"projects/\" p \"/topics/\" rest with '/' not in p, p non-empty, n.id = rest trimmed of '/' and non-empty (likewise /subscriptions/).",
-         "Trusted (A-STR): byte-level contracts of str::starts_with / find / trim_matches, Box<str>: From<&str>, byte values of the literal segments; Display is not under contract. The completeness direction (canonical echo accepted) needs UTF-8 char-boundary facts and is cross-checked by the replay crate, not proved."),
+ "C18": ("proof",
+         "Proved on the byte view of &str (after fix 0473433), both directions: try_parse(s) = Some(n) implies s = \"projects/\" p \"/topics/\" rest with '/' not in p, p non-empty, n.id = rest trimmed of '/' and non-empty; and every string of that form is accepted (so the canonical echo of an accepted name is accepted); likewise /subscriptions/.",
+         "Trusted (A-STR): byte-level contracts of str::starts_with / find / trim_matches, Box<str>: From<&str>, lengths and end bytes of the literal segments, 'an ASCII byte and the position after it are char boundaries' (completeness only); Display and the derived Eq/Hash of the names are not under contract."),
 }
 
 NA = {
@@ -66,8 +66,10 @@ ASSUME_ALL = [
 
 def main():
     checks = []
+    STANDINS = {'C01': ' Bounded stand-ins (never counted as proved): `history` (second subscription on the topic must receive every message) and `lifecycle` cover the fan-out.', 'C02': ' Bounded stand-ins: `history`, `rpc` (unary and in-stream acks, batch with a malformed id).', 'C03': ' Bounded stand-in: `history` (ack-id freshness, no hand-out while leased).', 'C04': ' Bounded stand-ins: `history` (probes 1 ms before / 5 ms after each deadline), `rpc` (10 s floor through the API).', 'C05': ' Bounded stand-ins: `history`, `rpc` (in-stream extension counts from its receipt; rejected batches apply nothing).', 'C08': ' Bounded stand-ins: `order` (concurrent publishers), `history` (first deliveries in publish order).', 'C09': ' Bounded stand-ins: `lifecycle` (global id uniqueness across delete / re-create), `rpc` (content identity on pull, redelivery, second subscription).', 'C10': ' Bounded stand-ins: `lifecycle` (incl. racing creates), `rpc` (status codes, read-back).', 'C11': ' Bounded stand-ins: `lifecycle` (held topic handles, late duplicate deletes, re-creation), `rpc` (deleted-topic sentinel).', 'C13': ' Bounded stand-ins: `paging`, `lifecycle`, `rpc` (token walks through the RPC surface).', 'C15': ' Bounded stand-ins: `history`, `rpc` (max_messages around 65536, blocking and release of the unary wait loop).', 'C17': ' Bounded stand-ins: `names`, `paging`, `rpc` (malformed fields in every request type, server keeps serving).', 'C18': ' Bounded stand-in: `names` (strings near the fixed segments, identity of names as values and map keys).'}
     for pid in sorted(CLAIMS):
         lvl, text, note = CLAIMS[pid]
+        note = note + STANDINS.get(pid, "")
         checks.append({
             "property_id": pid,
             "quick_cmd": "./check %s --tier quick" % pid,
